@@ -1,11 +1,11 @@
 CONSTANTS
   Ctxs = {1, 2, 3}
   Names = {"x"}
-  Boxes = {2}
+  Boxes = {3}
   Vals = {0, 1}
   MaxStack = 1
   MaxOps <- NoLimit
-  OpKinds = {"set", "del", "release", "push", "pop", "release_stack", "spawn"}
+  OpKinds = {"set", "del", "push", "pop", "proxy_mutate", "proxy_pop", "proxy_clear", "spawn"}
   Made0 <- AllMade
 INIT Init
 NEXT Next
